@@ -3,7 +3,9 @@ import CashewsVerif.Lemmas.TxFaultBody
 C16: the lock bookkeeping.  Through the body every lock entry carrying this transaction's token is remembered
 in the `_locks` of some wrapped backend (`LockInv`); on the way out every wrapped backend gets its
 `_unlock_updates` run, whatever fails (`Covered` shrinks to the empty list), so what is left of this
-transaction's locks are exactly those whose own `unlock` command was made to fail (`FU`).
+transaction's locks are exactly those whose own `unlock` command was made to fail (`FU`).  The OLD loop of
+`Transaction._rollback` (`cfg.rbAll = false`, before 12f0cbb) caught `Exception` only, so an `unlock` that ended with a
+BaseException (cancellation) took the task out of the loop and the wrappers after it were never unlocked (`BU`).
 -/
 namespace CashewsVerif.TxFault
 
@@ -329,16 +331,28 @@ theorem mem_unlockOrder (uprio : List (Nat × Nat)) (b : Nat) (ls : List Nat) (l
   · exact Or.inl hp
   · exact Or.inr ⟨h, by simpa using hp⟩
 
-/-- what is still ours in the lock stores is remembered by a wrapper still to be processed, or its unlock failed -/
+/-- the loop of `_rollback` is the OLD one (`except Exception` only) and some `unlock` command issued in this run
+(index ≥ `c0`) was made to fail with an exception of BaseException kind -/
+def BU (cfg : Cfg) (c0 : Nat) (w : FWorld) : Prop :=
+  cfg.rbAll = false ∧ ∃ i b' lk', c0 ≤ i ∧ i < w.counter ∧ cfg.fails i = true ∧ cfg.base i = true ∧
+    (⟨i, b', .unlock lk', true⟩ : Ev) ∈ w.log
+
+theorem BU.mono {cfg : Cfg} {c0 : Nat} {w w' : FWorld} (h : BU cfg c0 w) (hr : RExit w w') : BU cfg c0 w' := by
+  obtain ⟨ha, i, b', lk', h1, h2, h3, h4, h5⟩ := h
+  exact ⟨ha, i, b', lk', h1, Nat.lt_of_lt_of_le h2 hr.1, h3, h4, hr.2.1 _ h5⟩
+
+/-- what is still ours in the lock stores is remembered by a wrapper still to be processed, or its unlock failed, or
+`_rollback` was left by a BaseException -/
 def Covered (cfg : Cfg) (c0 : Nat) (ts : List TxB) (w : FWorld) : Prop :=
-  ∀ b lk e, alLookup w.locks (b, lk) = some e → e.mine = true → Holds ts b lk ∨ FU cfg c0 w b lk
+  ∀ b lk e, alLookup w.locks (b, lk) = some e → e.mine = true → Holds ts b lk ∨ FU cfg c0 w b lk ∨ BU cfg c0 w
 
 theorem Covered.mono {cfg : Cfg} {c0 : Nat} {ts : List TxB} {w w' : FWorld} (h : Covered cfg c0 ts w)
     (hr : RExit w w') : Covered cfg c0 ts w' := by
   intro b lk e he hm
-  rcases h b lk e (hr.2.2.2 _ _ he) hm with h1 | h1
+  rcases h b lk e (hr.2.2.2 _ _ he) hm with h1 | h1 | h1
   · exact Or.inl h1
-  · exact Or.inr (h1.mono hr)
+  · exact Or.inr (Or.inl (h1.mono hr))
+  · exact Or.inr (Or.inr (h1.mono hr))
 
 theorem unlockUpdates_RExit (cfg : Cfg) (t : TxB) : Rel RExit (unlockUpdates cfg t) :=
   gatherUnlock_RExit _ _ _
@@ -348,7 +362,7 @@ theorem unlockUpdates_cov (cfg : Cfg) (c0 : Nat) (t : TxB) (ts : List TxB) (w : 
     (h : Covered cfg c0 (t :: ts) w) : Covered cfg c0 ts (unlockUpdates cfg t w).2 := by
   intro b lk e he hm
   have hr := unlockUpdates_RExit cfg t w
-  rcases h b lk e (hr.2.2.2 _ _ he) hm with h1 | h1
+  rcases h b lk e (hr.2.2.2 _ _ he) hm with h1 | h1 | h1
   · obtain ⟨t', ht', hb, hl⟩ := h1
     rcases List.mem_cons.1 ht' with rfl | hmem
     · subst hb
@@ -356,9 +370,10 @@ theorem unlockUpdates_cov (cfg : Cfg) (c0 : Nat) (t : TxB) (ts : List TxB) (w : 
       · have := h2 e he
         rw [hm] at this
         cases this
-      · exact Or.inr h2
+      · exact Or.inr (Or.inl h2)
     · exact Or.inl ⟨t', hmem, hb, hl⟩
-  · exact Or.inr (h1.mono hr)
+  · exact Or.inr (Or.inl (h1.mono hr))
+  · exact Or.inr (Or.inr (h1.mono hr))
 
 theorem runCmds_RExit (cfg : Cfg) (b : Nat) (cs : List BCmd) (h : ∀ c ∈ cs, c.noLock) : Rel RExit (runCmds cfg b cs) := by
   induction cs with
@@ -407,16 +422,86 @@ theorem rollbackList_RExit (cfg : Cfg) (ts : List TxB) (w : FWorld) : RExit w (r
   induction ts generalizing w with
   | nil => exact RExit.pre.refl w
   | cons t rest ih =>
-    rw [rollbackList_snd]
-    exact RExit.pre.trans (rollbackOne_RExit cfg t w) (ih _)
+    rcases rollbackList_snd cfg t rest w with h | ⟨h, _⟩ <;> rw [h]
+    · exact RExit.pre.trans (rollbackOne_RExit cfg t w) (ih _)
+    · exact rollbackOne_RExit cfg t w
 
+/-- an exception that leaves the `gather` of the unlocks is the fault of one of them -/
+theorem gatherUnlock_err (cfg : Cfg) (b : Nat) (ls : List Nat) (w : FWorld) (e : Err)
+    (h : (gatherUnlock cfg b ls w).1 = .err e) :
+    ∃ i lk, w.counter ≤ i ∧ i < (gatherUnlock cfg b ls w).2.counter ∧ cfg.fails i = true ∧
+      e = .fault i (cfg.kindAt i) ∧ (⟨i, b, .unlock lk, true⟩ : Ev) ∈ (gatherUnlock cfg b ls w).2.log := by
+  induction ls generalizing w with
+  | nil => simp [gatherUnlock, pure_eq, M.pure] at h
+  | cons lk rest ih =>
+    have hstep := backendCmd_RExit cfg b (.unlock lk) trivial w
+    have hrest := gatherUnlock_RExit cfg b rest (backendCmd cfg b (.unlock lk) w).2
+    rw [gatherUnlock_snd]
+    cases hf : cfg.fails w.counter with
+    | false =>
+      have hok := backendCmd_ok cfg b (.unlock lk) w hf
+      simp only [gatherUnlock, hok] at h
+      rw [hok] at hstep ⊢
+      generalize (applyCmd b (.unlock lk) (logged cfg b (.unlock lk) w)).2 = w1 at h hstep ⊢
+      have := ih w1 (by
+        generalize gatherUnlock cfg b rest w1 = q at h
+        obtain ⟨r2, w2⟩ := q
+        exact h)
+      obtain ⟨i, lk', h1, h2, h3, h4, h5⟩ := this
+      exact ⟨i, lk', Nat.le_trans hstep.1 h1, h2, h3, h4, h5⟩
+    | true =>
+      have hbad := backendCmd_fail cfg b (.unlock lk) w hf
+      simp only [gatherUnlock, hbad] at h
+      rw [hbad] at hrest ⊢
+      have he : e = .fault w.counter (cfg.kindAt w.counter) := by
+        generalize gatherUnlock cfg b rest (logged cfg b (.unlock lk) w) = q at h
+        obtain ⟨r2, w2⟩ := q
+        simp only [Res.err.injEq] at h
+        exact h.symm
+      refine ⟨w.counter, lk, Nat.le_refl _, Nat.lt_of_lt_of_le (by simp [logged]) hrest.1, hf, he, hrest.2.1 _ ?_⟩
+      simp [logged, hf]
+
+/-- an exception that leaves the rollback of one wrapped backend is the fault of one of its unlocks -/
+theorem rollbackOne_err (cfg : Cfg) (t : TxB) (w : FWorld) (e : Err) (h : (rollbackOne cfg t w).1 = .err e) :
+    ∃ i lk, w.counter ≤ i ∧ i < (rollbackOne cfg t w).2.counter ∧ cfg.fails i = true ∧
+      e = .fault i (cfg.kindAt i) ∧ (⟨i, t.bid, .unlock lk, true⟩ : Ev) ∈ (rollbackOne cfg t w).2.log := by
+  have hw : (rollbackOne cfg t w).2 = (unlockUpdates cfg t w).2 := by
+    unfold rollbackOne; rw [tryFinally_snd]; rfl
+  have hr : (unlockUpdates cfg t w).1 = .err e := by
+    unfold rollbackOne tryFinally at h
+    simp only [M.pure] at h
+    generalize unlockUpdates cfg t w = q at h ⊢
+    obtain ⟨r2, w2⟩ := q
+    cases r2 with
+    | ok a => simp at h
+    | err e' => simpa using h
+  rw [hw]
+  exact gatherUnlock_err cfg t.bid _ w e hr
+
+theorem isBase_fault (cfg : Cfg) (i : Nat) (h : (Err.fault i (cfg.kindAt i)).isBase = true) : cfg.base i = true := by
+  unfold Cfg.kindAt at h
+  cases hb : cfg.base i with
+  | true => rfl
+  | false => simp [hb, Err.isBase] at h
+
+/-- **what `_rollback` leaves behind**: every wrapped backend is discharged, or the loop was left by a BaseException -/
 theorem rollbackList_cov (cfg : Cfg) (c0 : Nat) (ts : List TxB) (w : FWorld) (hc : c0 ≤ w.counter)
     (h : Covered cfg c0 ts w) : Covered cfg c0 [] (rollbackList cfg ts w).2 := by
   induction ts generalizing w with
   | nil => exact h
   | cons t rest ih =>
-    rw [rollbackList_snd]
-    exact ih _ (Nat.le_trans hc (rollbackOne_RExit cfg t w).1) (rollbackOne_cov cfg c0 t rest w hc h)
+    have h1 := rollbackOne_cov cfg c0 t rest w hc h
+    rcases rollbackList_snd cfg t rest w with hs | ⟨hs, hall, e, he, hb⟩ <;> rw [hs]
+    · exact ih _ (Nat.le_trans hc (rollbackOne_RExit cfg t w).1) h1
+    · -- the loop is left: whatever the remaining wrappers remember stays
+      obtain ⟨i, lk', hi1, hi2, hi3, hi4, hi5⟩ := rollbackOne_err cfg t w e he
+      have hbu : BU cfg c0 (rollbackOne cfg t w).2 :=
+        ⟨hall, i, t.bid, lk', Nat.le_trans hc hi1, hi2, hi3, isBase_fault cfg i (hi4 ▸ hb), hi5⟩
+      intro b lk en hen hm
+      rcases h1 b lk en hen hm with h2 | h2 | h2
+      · exact Or.inr (Or.inr hbu)
+      · exact Or.inr (Or.inl h2)
+      · exact Or.inr (Or.inr h2)
 
 theorem commitLoop_RExit (cfg : Cfg) (ts : List TxB) (w : FWorld) : RExit w (commitLoop cfg ts w).2 := by
   induction ts generalizing w with
